@@ -6,6 +6,7 @@ import (
 	"go/token"
 	"golang.org/x/tools/go/ssa"
 	"regexp"
+	"sort"
 	"strings"
 
 	"goacheck/an"
@@ -332,10 +333,15 @@ func r16NotFound(c *an.Ctx) {
 	if f == nil {
 		return
 	}
-	fn := c.SSAFunc(f)
 	// the handler given to the router's NotFound: a function literal, a named function or a local
 	var nf *ssa.Function
-	if fn != nil {
+	var fns []*ssa.Function
+	for _, g := range c.WithNewHelpers(f) {
+		if sg := c.SSAFunc(g); sg != nil {
+			fns = append(fns, sg)
+		}
+	}
+	for _, fn := range fns {
 		for _, b := range fn.Blocks {
 			for _, in := range b.Instrs {
 				call, ok := in.(ssa.CallInstruction)
@@ -419,7 +425,7 @@ func r16Probe(c *an.Ctx) {
 				}
 				n++
 				construct := fmt.Sprintf("%s#Match@%s", f.Name, c.Position(call.Pos()))
-				if f.Name == "http.mux.ensureContext" {
+				if c.RefName(f) == "http.mux.ensureContext" { // also under a new name
 					c.Okf(rule, construct, "ensureContext initialises the request's own routing context (reviewed: this is its purpose)")
 					continue
 				}
@@ -448,34 +454,34 @@ func r16Sentinels(c *an.Ctx) {
 	h := c.MustFunc("R16.8", "http", "mux.Handle")
 	nm := c.MustFunc("R16.8", "http", "NewMuxer")
 	if h != nil && nm != nil {
-		info := h.Pkg.TypesInfo
 		var sentinels []string
-		ast.Inspect(h.Decl.Body, func(nd ast.Node) bool {
-			is, ok := nd.(*ast.IfStmt)
-			if !ok {
-				return true
-			}
-			cmp, ok := an.Unparen(is.Cond).(*ast.BinaryExpr)
-			if !ok || cmp.Op != token.NEQ || !an.IsNilIdent(info, cmp.Y) {
-				return true
-			}
-			se, ok := an.Unparen(cmp.X).(*ast.SelectorExpr)
-			if !ok {
-				return true
-			}
-			// reset to nil inside the block
-			reset := false
-			ast.Inspect(is.Body, func(m ast.Node) bool {
-				if as, ok := m.(*ast.AssignStmt); ok && len(as.Lhs) == 1 && len(as.Rhs) == 1 && an.SameExpr(info, as.Lhs[0], se) && an.IsNilIdent(info, as.Rhs[0]) {
-					reset = true
+		// a sentinel is a field of the muxer that Handle (or a helper extracted from it) both compares
+		// with nil and sets to nil: the first-registration work is done while it is non-nil
+		compared, cleared := map[string]bool{}, map[string]bool{}
+		c.InspectAll(h, func(hf *an.Func, nd ast.Node) bool {
+			info := hf.Pkg.TypesInfo
+			switch x := nd.(type) {
+			case *ast.BinaryExpr:
+				if (x.Op == token.NEQ || x.Op == token.EQL) && an.IsNilIdent(info, x.Y) {
+					if fv := an.FieldOf(info, x.X); fv != nil {
+						compared[fv.Name()] = true
+					}
 				}
-				return true
-			})
-			if reset {
-				sentinels = append(sentinels, se.Sel.Name)
+			case *ast.AssignStmt:
+				if len(x.Lhs) == 1 && len(x.Rhs) == 1 && an.IsNilIdent(info, x.Rhs[0]) {
+					if fv := an.FieldOf(info, x.Lhs[0]); fv != nil {
+						cleared[fv.Name()] = true
+					}
+				}
 			}
 			return true
 		})
+		for name := range compared {
+			if cleared[name] {
+				sentinels = append(sentinels, name)
+			}
+		}
+		sort.Strings(sentinels)
 		if len(sentinels) == 0 {
 			c.Add(an.Obligation{Rule: "R16.8", Construct: h.Name + "#sentinel", Status: an.LOST, Detail: "no first-registration sentinel found in Handle"})
 		}
@@ -483,16 +489,21 @@ func r16Sentinels(c *an.Ctx) {
 		for _, s := range sentinels {
 			set := false
 			ast.Inspect(nm.Decl.Body, func(nd ast.Node) bool {
-				kv, ok := nd.(*ast.KeyValueExpr)
-				if !ok {
-					return true
-				}
-				if id, ok := kv.Key.(*ast.Ident); ok && id.Name == s && !an.IsNilIdent(ninfo, kv.Value) {
-					set = true
+				switch x := nd.(type) {
+				case *ast.KeyValueExpr:
+					if id, ok := x.Key.(*ast.Ident); ok && id.Name == s && !an.IsNilIdent(ninfo, x.Value) {
+						set = true
+					}
+				case *ast.AssignStmt:
+					if len(x.Lhs) == 1 && len(x.Rhs) == 1 && !an.IsNilIdent(ninfo, x.Rhs[0]) {
+						if fv := an.FieldOf(ninfo, x.Lhs[0]); fv != nil && fv.Name() == s {
+							set = true
+						}
+					}
 				}
 				return true
 			})
-			c.Check(set, "R16.8", nm.Name+"#"+s, nm.Decl.Pos(), "the constructor gives the first-registration sentinel a non-nil value", "Handle runs its first-registration setup (not-found handler, pending middlewares) only while field "+s+" is non-nil, but NewMuxer leaves it nil: the goa not-found handler is never installed")
+			c.Check(set, "R16.8", nm.Name+"#sentinel", nm.Decl.Pos(), "the constructor gives the first-registration sentinel a non-nil value", "Handle runs its first-registration setup (not-found handler, pending middlewares) only while field "+s+" is non-nil, but NewMuxer leaves it nil: the goa not-found handler is never installed")
 		}
 	}
 	if f := c.MustFunc("R16.9", "http", "mux.ensureContext"); f != nil {
